@@ -571,10 +571,53 @@ def run(check):
         final = [r for r in rets if isinstance(r.ast.value, ast.Name) and r.ast.value.id == rv]
         okc = bool(final)
       init = repo.cls('carbon.aggregator.rules', 'AggregationRule').methods.get('__init__')
-      per_rule = init is not None and 'self.cache=get_cache()' in unparse(init.node).replace(' ', '')
+      per_rule = init is not None and _fresh_cache_per_rule(cx, init)
       r_c = check.rule('R-C08-cache', 1, 'the name cache is per rule, keyed by the whole name, and stores what was computed')
       if okc and per_rule:
         r_c.ok('cache[metric_path] = result, one cache per rule', gam.loc(stores[0].ast))
       else:
         r_c.violate('name cache', gam, stores[0].ast if stores else None, 'the aggregate-name cache is not a per-rule mapping from the '
                     'whole metric path to the computed result', construct='self.cache[metric_path] = result')
+
+
+FRESH_CTORS = {'dict', 'OrderedDict', 'defaultdict'}
+
+
+def _fresh_value(cx, fn, e, depth=0):
+  """does the expression always evaluate to a container created by this very evaluation?"""
+  from ..rulelib import resolve_copies
+  if isinstance(e, tuple):
+    return False
+  if isinstance(e, ast.Dict):
+    return True
+  if isinstance(e, ast.Name):
+    srcs = resolve_copies(fn, e)
+    return bool(srcs) and srcs != [e] and all(_fresh_value(cx, fn, s, depth) for s in srcs)
+  if isinstance(e, ast.IfExp):
+    return _fresh_value(cx, fn, e.body, depth) and _fresh_value(cx, fn, e.orelse, depth)
+  if isinstance(e, ast.Call):
+    f = e.func
+    if isinstance(f, ast.Name) and f.id in FRESH_CTORS:
+      return True
+    cs, how = cx.callees(e, fn)
+    if how == 'resolved' and cs:
+      ok = True
+      for callee, via in cs:
+        if via == 'ctor':
+          continue
+        if depth >= 2 or isinstance(callee.node, ast.Lambda):
+          return False
+        rets = [r for r in walk_no_nested(callee.node, include_self=False) if isinstance(r, ast.Return)]
+        if not rets or not all(r.value is not None and _fresh_value(cx, callee, r.value, depth + 1) for r in rets):
+          ok = False
+      return ok
+    if how == 'external' and isinstance(f, (ast.Name, ast.Attribute)) and (dotted(f) or '').split('.')[-1][:1].isupper():
+      return True       # constructor of a library class (cachetools.LRUCache / TTLCache)
+  return False
+
+
+def _fresh_cache_per_rule(cx, init):
+  """__init__ gives every rule object a cache container of its own."""
+  stores = [n for n in walk_no_nested(init.node, include_self=False) if isinstance(n, ast.Assign) and
+            any(isinstance(t, ast.Attribute) and dotted(t) == 'self.cache' for t in n.targets)]
+  return bool(stores) and all(_fresh_value(cx, init, n.value) for n in stores)
